@@ -5,6 +5,7 @@ Run by hand on the pinned tree only; the check never writes this file."""
 import contextlib, io, json, os, sys
 sys.path.insert(0, '/verif')
 os.environ["VERIF_SHOW_KNOWN"] = "1"
+os.environ.setdefault("PYTHONHASHSEED", "0")      # as ./check does (worker processes inherit it)
 os.environ["VERIF_EVIDENCE_DIR"] = "/verif/out/reseed_evidence"
 from vlib.core import Ctx
 import importlib
